@@ -192,13 +192,13 @@ func loadProgram(files []harnessFile, pkgDirs []string) (*ssa.Program, map[strin
 }
 
 type tierCfg struct {
-	queryMs, feasMs, maxPaths, maxDepth int
+	queryMs, feasMs, maxPaths, maxDepth, harnessSec int
 	maxSteps                            int64
 }
 
 var tiers = map[string]tierCfg{
-	"quick":    {queryMs: 45000, feasMs: 4000, maxPaths: 40000, maxDepth: 400, maxSteps: 3000000},
-	"thorough": {queryMs: 120000, feasMs: 5000, maxPaths: 600000, maxDepth: 400, maxSteps: 6000000},
+	"quick":    {queryMs: 45000, feasMs: 4000, maxPaths: 40000, maxDepth: 400, maxSteps: 3000000, harnessSec: 600},
+	"thorough": {queryMs: 120000, feasMs: 5000, maxPaths: 600000, maxDepth: 400, maxSteps: 6000000, harnessSec: 2400},
 }
 
 func cmdRun(args []string) int {
@@ -259,7 +259,7 @@ func cmdRun(args []string) int {
 		if fn == nil {
 			fatal("harness %s not found in %s", h.name, h.pkgDir)
 		}
-		cfg := &interp.Config{Tier: *tier, QueryMs: tc.queryMs, FeasMs: tc.feasMs, MaxPaths: tc.maxPaths, MaxSteps: tc.maxSteps,
+		cfg := &interp.Config{Tier: *tier, QueryMs: tc.queryMs, FeasMs: tc.feasMs, MaxPaths: tc.maxPaths, MaxSteps: tc.maxSteps, HarnessSec: tc.harnessSec,
 			MaxDepth: tc.maxDepth, Workers: nw, Seed: seed, MaxViol: 100, ModulePath: module}
 		r := interp.RunHarness(prog, fn, cfg, sizes)
 		r.Name = h.name
